@@ -175,6 +175,10 @@ def isInstanceOfTypeOf (a b : Val) : Bool :=
 def repeatList {α : Type} (xs : List α) (n : Int) : List α :=
   (List.replicate n.toNat xs).flatten
 
+/-- sequence repetition is modelled up to a million elements (beyond that CPython's answer depends
+on the memory available: `MemoryError` / `OverflowError`) -/
+def repeatOk {α : Type} (xs : List α) (n : Int) : Bool := n.toNat * xs.length ≤ 1000000
+
 def asIndexInt : Val → Option Int
   | .bool b => some (if b then 1 else 0)
   | .int i => some i
@@ -212,13 +216,16 @@ def mul (a b : Val) : R Val :=
     pure (.float (F64.mul fx fy))
   | _, _ =>
     match a, asIndexInt b, asIndexInt a, b with
-    | .str s, some n, _, _ => .ok (.str (String.ofList (repeatList s.toList n)))
-    | .list xs, some n, _, _ => .ok (.list (repeatList xs n))
-    | .tuple xs, some n, _, _ => .ok (.tuple (repeatList xs n))
-    | _, _, some n, .str s => .ok (.str (String.ofList (repeatList s.toList n)))
-    | _, _, some n, .list xs => .ok (.list (repeatList xs n))
-    | _, _, some n, .tuple xs => .ok (.tuple (repeatList xs n))
+    | .str s, some n, _, _ => seqRepeat s.toList n fun cs => .str (String.ofList cs)
+    | .list xs, some n, _, _ => seqRepeat xs n .list
+    | .tuple xs, some n, _, _ => seqRepeat xs n .tuple
+    | _, _, some n, .str s => seqRepeat s.toList n fun cs => .str (String.ofList cs)
+    | _, _, some n, .list xs => seqRepeat xs n .list
+    | _, _, some n, .tuple xs => seqRepeat xs n .tuple
     | _, _, _, _ => .error .typeError
+where
+  seqRepeat {α : Type} (xs : List α) (n : Int) (mk : List α → Val) : R Val :=
+    if repeatOk xs n then .ok (mk (repeatList xs n)) else .error .unsupported
 
 /-- `a / b`: true division. `int / int` is correctly rounded (CPython `long_true_divide`). -/
 def div (a b : Val) : R Val :=
@@ -303,6 +310,11 @@ def stripChars (cs : List Char) : List Char :=
 /-- `s.strip()` -/
 def pyStrip (s : String) : String := String.ofList (stripChars s.toList)
 
+/-- `s.strip(chars)` -/
+def pyStripSet (s chars : String) : String :=
+  let set := chars.toList
+  String.ofList (((s.toList.dropWhile set.contains).reverse.dropWhile set.contains).reverse)
+
 def isAsciiStr (cs : List Char) : Bool := cs.all fun c => c.toNat < 128
 
 def upperAscii (c : Char) : Char := if 'a' ≤ c ∧ c ≤ 'z' then Char.ofNat (c.toNat - 32) else c
@@ -343,16 +355,102 @@ def splitWs : List Char → List Char → List (List Char)
 
 def natToDigits (n : Nat) : String := toString n
 
+/-! ### `repr(float)` (= `str(float)`, `format(x, '')`): shortest digit string that round-trips -/
+
+/-- `⌊log10 (N / D)⌋` for `N, D > 0`: estimate from the bit lengths, then correct -/
+def log10Floor (N D : Nat) : Int :=
+  let est : Int := (((N.log2 : Int) - (D.log2 : Int)) * 30103) / 100000
+  -- is 10^k ≤ N / D ?
+  let le (k : Int) : Bool := if k ≥ 0 then 10 ^ k.toNat * D ≤ N else D ≤ N * 10 ^ (-k).toNat
+  let rec up (fuel : Nat) (k : Int) : Int :=
+    match fuel with
+    | 0 => k
+    | f + 1 => if le (k + 1) then up f (k + 1) else k
+  let rec down (fuel : Nat) (k : Int) : Int :=
+    match fuel with
+    | 0 => k
+    | f + 1 => if le k then k else down f (k - 1)
+  up 8 (down 8 est)
+
+/-- the shortest decimal `digits × 10^(decpt - #digits)` that rounds to the finite positive double
+`m·2^e` (scaled units); among the shortest the one closest to it (David Gay's mode 0, which
+`float_repr_style = 'short'` uses) -/
+def shortestDigits (m e : Nat) : Nat × Int :=
+  let N := m * 2 ^ e
+  let D := F64.one
+  let k := log10Floor N D
+  let x := F64.finite false m e
+  let roundTrips (d : Nat) (ex : Int) : Bool := F64.ofDecimal false d ex == F64.mk false m e
+  let rec search (fuel p : Nat) : Nat × Int :=
+    match fuel with
+    | 0 => (0, 0)
+    | f + 1 =>
+      -- p significant digits: unit 10^(k - p + 1)
+      let ex : Int := k - p + 1
+      let (num, den) : Nat × Nat := if ex ≥ 0 then (N, D * 10 ^ ex.toNat) else (N * 10 ^ (-ex).toNat, D)
+      let lo := num / den
+      let hi := lo + 1
+      let okLo := lo > 0 && roundTrips lo ex
+      let okHi := roundTrips hi ex
+      -- distance comparison: |x - lo| vs |hi - x| in units: 2*num - 2*lo*den vs den
+      let pick : Option Nat :=
+        if okLo && okHi then
+          (let r := num - lo * den
+           if 2 * r < den then some lo else if 2 * r > den then some hi
+           else if lo % 2 == 0 then some lo else some hi)
+        else if okLo then some lo else if okHi then some hi else Option.none
+      match pick with
+      | some d =>
+        -- hi may be 10^p (one more digit): normalise trailing zeros below
+        (d, ex)
+      | Option.none => if p ≥ 17 then (F64.rneDiv num den, ex) else search f (p + 1)
+  let _ := x
+  search 18 1
+
+def stripTrailingZeros : Nat → Nat → Int → Nat × Int
+  | 0, d, ex => (d, ex)
+  | f + 1, d, ex => if d != 0 && d % 10 == 0 then stripTrailingZeros f (d / 10) (ex + 1) else (d, ex)
+
+/-- `repr(x)` -/
+def floatRepr (x : F64) : String :=
+  match x with
+  | .nan => "nan"
+  | .inf neg => if neg then "-inf" else "inf"
+  | .finite neg m e =>
+    let sign := if neg then "-" else ""
+    if m == 0 then sign ++ "0.0" else
+    let (d0, ex0) := shortestDigits m e
+    let (d, ex) := stripTrailingZeros 400 d0 ex0
+    let digits := (toString d).toList
+    let nd : Int := digits.length
+    let decpt : Int := nd + ex          -- value = 0.DIGITS × 10^decpt
+    if decpt > 16 || decpt ≤ -4 then
+      -- exponent notation: d[.ddd]e±XX
+      let mant := match digits with
+        | [] => "0"
+        | c :: rest => if rest.isEmpty then String.singleton c else String.singleton c ++ "." ++ String.ofList rest
+      let ex10 : Int := decpt - 1
+      let es := toString ex10.natAbs
+      let es := if es.length < 2 then "0" ++ es else es
+      sign ++ mant ++ "e" ++ (if ex10 < 0 then "-" else "+") ++ es
+    else if decpt ≤ 0 then
+      sign ++ "0." ++ String.ofList (List.replicate (-decpt).toNat '0') ++ String.ofList digits
+    else if decpt ≥ nd then
+      sign ++ String.ofList digits ++ String.ofList (List.replicate (decpt - nd).toNat '0') ++ ".0"
+    else
+      sign ++ String.ofList (digits.take decpt.toNat) ++ "." ++ String.ofList (digits.drop decpt.toNat)
+
 def intToStr (i : Int) : String := if i < 0 then "-" ++ toString i.natAbs else toString i.natAbs
 
-/-- `str(x)` and `format(x, '')` agree on the supported types; floats and containers are outside the
-model (no shipped line formats them) -/
+/-- `str(x)` and `format(x, '')` agree on the supported types; containers are outside the model
+(no shipped line formats them) -/
 def pyStr : Val → R String
   | .none => .ok "None"
   | .bool b => .ok (if b then "True" else "False")
   | .int i => .ok (intToStr i)
   | .str s => .ok s
   | .enumv _ m => .ok m
+  | .float x => .ok (floatRepr x)
   | _ => .error .unsupported
 
 /-! ## containers -/
@@ -469,12 +567,13 @@ def pyIs (a b : Val) : R Bool :=
 def rangeList (a b : Int) : List Val :=
   (List.range (b - a).toNat).map fun (k : Nat) => .int (a + (k : Int))
 
+/-- `range(...)` is materialised (CPython iterates it lazily): modelled up to a million items -/
 def pyRange : List Val → R Val
   | [b] => match asIndexInt b with
-    | some n => .ok (.list (rangeList 0 n))
+    | some n => if n ≤ 1000000 then .ok (.list (rangeList 0 n)) else .error .unsupported
     | Option.none => .error .typeError
   | [a, b] => match asIndexInt a, asIndexInt b with
-    | some m, some n => .ok (.list (rangeList m n))
+    | some m, some n => if n - m ≤ 1000000 then .ok (.list (rangeList m n)) else .error .unsupported
     | _, _ => .error .typeError
   | _ => .error .unsupported
 
@@ -656,6 +755,18 @@ def roundIntNeg (i : Int) (k : Nat) : Int :=
   let q := F64.rneDiv i.natAbs p
   if i < 0 then -((q * p : Nat) : Int) else ((q * p : Nat) : Int)
 
+/-- `round(x, -k)` for a float: the nearest multiple of `10^k` (ties to even on the exact value),
+then the nearest double; `OverflowError` when that is not finite -/
+def roundFloatNeg (x : F64) (k : Nat) : R Val :=
+  match x with
+  | .finite neg m e =>
+    if k > 308 then .ok (.float (.finite neg 0 0)) else
+    let q := F64.rneDiv (m * 2 ^ e) (F64.one * 10 ^ k)
+    (match F64.ofScaled neg (q * 10 ^ k * F64.one) 1 with
+     | .inf _ => .error .overflowError
+     | r => .ok (.float r))
+  | _ => .ok (.float x)
+
 def floatToInt (x : F64) (r : Option Int) : R Val :=
   match r with
   | some i => .ok (.int i)
@@ -670,7 +781,7 @@ def pyRound : List Val → R Val
      | Option.none => .error .typeError
      | some k =>
        match x with
-       | .float f => if k ≥ 0 then .ok (.float (F64.roundN f k.toNat)) else .error .unsupported
+       | .float f => if k ≥ 0 then .ok (.float (F64.roundN f k.toNat)) else roundFloatNeg f (-k).toNat
        | .int i => .ok (.int (if k ≥ 0 then i else roundIntNeg i (-k).toNat))
        | .bool b =>
          let i : Int := if b then 1 else 0
